@@ -169,4 +169,11 @@ def native_collision_search(maxlen=2, alphabet=("a", ",", "\\")):
         if k in seen and seen[k] != r2:
             return {"row_a": seen[k], "row_b": r2, "merged_key": str(k)}
         seen[k] = r2
+    # the key of a row is a function of that row alone (the same tuple gets the same key at fit and at predict time, whatever else is in the table)
+    for r, k in zip(rows, keys):
+        for other in (None, ["a", "a"], [",", "a"], ["a" * 9, "a"]):
+            table = [r] if other is None else [r, other]
+            alone = _merge_columns(np.array(table, dtype=object))[0]
+            if str(alone) != str(k):
+                return {"row_a": [str(x) for x in r], "row_b": other, "merged_key": str(k), "key_in_another_table": str(alone), "kind": "key depends on the other rows of the table"}
     return None
